@@ -506,6 +506,16 @@ fn random_resp(rng: &mut Rng, max_body: usize) -> RespSpec {
     if rng.chance(1, 4) {
         ops.push(BOp::AllowMethod(rng.below(3) as u8));
     }
+    // `set_content_length` — before or after the body, announcing less, exactly, or MORE than the body has (the writer
+    // must never index the body by the announced number), removed, negative
+    if rng.chance(1, 8) {
+        let l = *rng.pick(&[None, Some(0), Some(1), Some(3), Some(19), Some(20), Some(-1), Some(70000), Some(2147483647)]);
+        if rng.chance(1, 3) {
+            ops.insert(0, BOp::Len(l));
+        } else {
+            ops.push(BOp::Len(l));
+        }
+    }
     RespSpec { v11: rng.chance(1, 2), code: *rng.pick(&CODES), ops }
 }
 
